@@ -139,7 +139,7 @@ def direct(job):
 # one batch through the real master / workers
 # ---------------------------------------------------------------------------------------------
 
-def run_batch(jobs, n_workers, switch, delays, fast=True, grace=0.4):
+def run_batch(jobs, n_workers, switch, delays, fast=True, grace=6.0):
     pipegen.setup()
     from semantiva.execution.job_queue.queue_orchestrator import QueueSemantivaOrchestrator
     from semantiva.execution.job_queue.worker import worker_loop
@@ -184,11 +184,9 @@ def run_batch(jobs, n_workers, switch, delays, fast=True, grace=0.4):
                 elif idle_since[1] != with_status:
                     idle_since = (time.time(), with_status)
                 elif time.time() - idle_since[0] > grace:
-                    # nothing queued, no event for `grace` seconds: taken jobs must be finished or lost
-                    takes = sum(1 for e in events if e[0] == "take")
-                    stats = sum(1 for e in events if e[0] == "status")
-                    if takes == len(jobs) and (stats + sum(1 for j in jobs if j["fails"]) >= takes or time.time() - idle_since[0] > 4 * grace):
-                        break
+                    # nothing queued and no transport event for `grace` seconds although Futures are pending: a job is
+                    # lost or its Future will never complete (a loaded machine may just be slow, hence the long grace)
+                    break
             time.sleep(0.002)
     finally:
         stop.set()
@@ -206,6 +204,103 @@ def run_batch(jobs, n_workers, switch, delays, fast=True, grace=0.4):
             data, ctx = f.result()
             results.append(("ok", pipegen.data_view(data), pipegen.ctx_view(ctx)))
     return results, events, [t.name for t in threads if t.is_alive()]
+
+
+# ---------------------------------------------------------------------------------------------
+# deterministic exploration: the real master / workers under the line-level scheduler
+# ---------------------------------------------------------------------------------------------
+
+def scheduled_scenario(jobs, n_workers, master_iters=14, worker_iters=10):
+    """make_bodies() for vlib.sched: thread 0 = master, 1.. = workers; loops end after a fixed number of iterations
+    (CountingEvent), whose `is_set` calls are voluntary yield points."""
+    pipegen.setup()
+    from semantiva.execution.job_queue.queue_orchestrator import QueueSemantivaOrchestrator
+    from semantiva.execution.job_queue.worker import worker_loop
+    from semantiva.execution.executor.executor import SequentialSemantivaExecutor
+    from semantiva.execution.transport.in_memory import InMemorySemantivaTransport
+    from semantiva.context_processors import ContextType
+    from props.yieldpoint import CountingEvent
+
+    def make():
+        transport = InMemorySemantivaTransport()
+        lg = quiet_logger()
+        mstop = CountingEvent(master_iters)
+        orch = QueueSemantivaOrchestrator(transport, stop_event=mstop, logger=lg)
+        orch.job_queue = FastQueue()
+        futures = [orch.enqueue(copy.deepcopy(j["nodes"]), data=make_data(j["data"]), context=ContextType(copy.deepcopy(j["ctx"])), return_future=True)
+                   for j in jobs]
+        bodies = [orch.run_forever]
+        for w in range(n_workers):
+            ev = CountingEvent(worker_iters)
+            bodies.append(lambda w=w, ev=ev: worker_loop(w, transport, SequentialSemantivaExecutor(), ev, logger=lg, poll_interval=0.0))
+
+        def finish(ex):
+            results = []
+            for f in futures:
+                if not f.done():
+                    results.append(("pending",))
+                elif f.exception() is not None:
+                    results.append(("exception", type(f.exception()).__name__, str(f.exception())))
+                else:
+                    data, ctx = f.result()
+                    results.append(("ok", pipegen.data_view(data), pipegen.ctx_view(ctx)))
+            return {"results": results, "errors": {t: repr(e) for t, e in ex.errors.items()}, "timed_out": ex.timed_out}
+        return bodies, finish
+    return make
+
+
+def explore_schedules(rep, rnd, stats, max_runs):
+    """One preemption at every scheduling point inside the transport's publish / subscription code, for small batches."""
+    from vlib import sched
+    import semantiva.execution.transport.in_memory as M
+    from props import yieldpoint
+    files = {M.__file__, yieldpoint.__file__}
+    yields = frozenset({"is_set"})
+    runs = 0
+    for n_jobs, n_workers, fail in ((1, 1, None), (2, 1, None), (2, 2, 1), (2, 2, None)):
+        if runs >= max_runs:
+            break
+        jobs = [{"nodes": [{"processor": "TSourceDef", "parameters": {"v": f"job{k}"}}] + ([{"processor": "TFail"}] if fail == k else []),
+                 "ctx": {"tag": k}, "data": None, "fails": fail == k, "kind": "source"} for k in range(n_jobs)]
+        make = scheduled_scenario(jobs, n_workers)
+        bodies, finish = make()
+        base = sched.Execution(files, bodies, [], yield_names=yields).run()
+        obs = finish(base)
+        runs += 1
+        stats["scheduled_runs"] = stats.get("scheduled_runs", 0) + 1
+        pub = {"jobs": [{"nodes": j["nodes"], "ctx": j["ctx"]} for j in jobs], "workers": n_workers}
+        problems = list(judge(jobs, obs["results"]))
+        if base.timed_out or obs["errors"]:
+            rep.notes.append(f"scheduled scenario {n_jobs}x{n_workers}: default schedule did not finish cleanly ({obs['errors']}, timed_out={base.timed_out})")
+            continue
+        for sig, what, det in problems:
+            rep.add_violation(sig + ":scheduled", what + " (default round-robin schedule)", dict(pub, schedule=[], finding=det))
+        # candidates: deviate once where the running thread is inside publish() / the subscription iterator
+        cands = []
+        for k in range(len(base.trace)):
+            fn = base.where_at[k][0]
+            if fn in ("publish", "__iter__", "subscribe", "<start>") or k < 3:
+                for alt in base.enabled_at[k]:
+                    if alt != base.trace[k]:
+                        cands.append(base.trace[:k] + [alt])
+        rnd.shuffle(cands)
+        stats["schedule_candidates"] = stats.get("schedule_candidates", 0) + len(cands)
+        for prefix in cands:
+            if runs >= max_runs:
+                break
+            bodies, finish = make()
+            ex = sched.Execution(files, bodies, prefix, yield_names=yields).run()
+            obs = finish(ex)
+            runs += 1
+            stats["scheduled_runs"] += 1
+            if ex.timed_out:
+                stats["scheduled_timeouts"] = stats.get("scheduled_timeouts", 0) + 1
+                continue
+            for sig, what, det in judge(jobs, obs["results"]):
+                rep.add_violation(sig + ":scheduled", what + " (under a schedule with one preemption inside the transport)",
+                                  dict(pub, schedule=prefix, preempted_at=list(ex.where_at[len(prefix) - 1]) if len(prefix) <= len(ex.where_at) else None,
+                                       finding=det))
+    return runs
 
 
 def judge(jobs, results):
@@ -247,7 +342,7 @@ def judge(jobs, results):
 
 def probe_reports_failure() -> bool:
     jobs = gen_jobs(core.rng("C15-probe"), 2, fail_at=0)
-    results, events, _ = run_batch(jobs, 1, 0.005, [0, 0], grace=0.3)
+    results, events, _ = run_batch(jobs, 1, 0.005, [0, 0])
     return results[0][0] == "exception" and results[1][0] == "ok"
 
 
@@ -351,6 +446,10 @@ def run(tier: str) -> int:
                 mism.append({"batch": b, "difference": dmsg, "events": [list(e) for e in events[:60]]})
         if len(samples) < 2 and b % 5 == 0:
             samples.append({"jobs": n, "workers": nw, "events": [list(e) for e in events[:12]], "results": [r[0] for r in results]})
+    try:
+        explore_schedules(rep, rnd, stats, 160 if tier == "quick" else 1500)
+    except Exception as exc:  # noqa: BLE001
+        rep.notes.append(f"deterministic exploration failed: {exc!r}")
     if mism:
         rep.add_broken(f"correspondence C15: real event histories do not replay in the protocol model ({len(mism)} differences), first "
                        + json.dumps(mism[0], default=str)[:800])
